@@ -44,6 +44,22 @@ Theorem C17_jacobi_stays_in_bounds :
 Proof. exact (fun F o => jacobi_safe o). Qed.
 Print Assumptions C17_jacobi_stays_in_bounds.
 
+(* the indexed point kernels (C/F relaxation of the classical and AIR solvers): any valid CSR matrix, any index array with
+   entries in [0, n), any positions inside the index array *)
+Require Import PV.Proofs.RelaxIdxSafe.
+Theorem C17_indexed_relaxation_stays_in_bounds :
+  forall (F : Type) (o : Ops F) (n nnz : nat) omega Ap Aj (Ax x b : list F) (Id : list Z) start stop step,
+  wf n nnz Ap Aj Ax x b -> (forall k, (k < length Id)%nat -> 0 <= nth k Id 0 < Z.of_nat n) ->
+  ((forall ii, In ii (loop_idx start stop step) -> 0 <= ii < Z.of_nat (length Id)) ->
+   gauss_seidel_indexed_chk o Ap Aj Ax x b Id start stop step = Some (gauss_seidel_indexed o Ap Aj Ax x b Id start stop step)) /\
+  jacobi_indexed_chk o Ap Aj Ax x b Id omega = Some (jacobi_indexed o Ap Aj Ax x b Id omega).
+Proof.
+  intros F o n nnz omega Ap Aj Ax x b Id start stop step W HId. split.
+  - intros Hr. exact (gauss_seidel_indexed_kernel_safe o n nnz Ap Aj Ax x b Id start stop step HId W Hr).
+  - apply (jacobi_indexed_safe o n nnz); [exact W|]. intros i Hi. destruct (In_nth Id i 0 Hi) as [k [Hk E]]. rewrite <- E. apply HId. exact Hk.
+Qed.
+Print Assumptions C17_indexed_relaxation_stays_in_bounds.
+
 (* lambda buckets of the Ruge-Stuben splitting (the "//invalid write!" site): bounded *)
 Theorem C17_bounded_rs_splitting_stays_in_bounds : forall p, In p all_patterns -> ok_rs_chk p = true.
 Proof. exact bounded_rs_chk. Qed.
